@@ -4,7 +4,7 @@ LEVEL = "exploration"
 FUNCTIONS = []
 TRUSTED = ["the derivative-based reference semantics in runtime/h_gsm.py"]
 ASSUMPTIONS = []
-BOUND = 'the non-nullable trees among the C13 trees x all sequences up to length 5 (thorough 6)'
+BOUND = 'the non-nullable trees among the C13 trees x all sequences up to length 5 (thorough 6); plus the three built-in header shapes (name groups / optional keyword / keyword) over all token sequences up to length 6 (thorough 7) over {identifier, keyword, (, ), {, other} against a direct balanced-parenthesis reference'
 RULE = 'bounds, items, word of the language, longest along the greedy run, order, disjointness, coverage of greedy-successful starts; reference by derivatives'
 
 
